@@ -2,7 +2,6 @@
 
 from __future__ import annotations
 
-import copy
 from dataclasses import dataclass, field
 from typing import TYPE_CHECKING, Literal
 
@@ -157,9 +156,13 @@ class Scipy(AbstractIntegrator):
         integ.set_initial_value(self.y0)
 
         t = self.t0 + step_size
-        y1 = copy.deepcopy(self.y0)
+        y1 = np.array(self.y0, dtype=float)
         for _ in range(max_steps):
-            y2 = integ.integrate(t)
+            # The integrator hands out its internal state array, which it overwrites
+            # on the next call, so the comparison needs a copy
+            y2 = np.array(integ.integrate(t), dtype=float)
+            if not integ.successful():
+                return Result(IntegrationFailure())
             diff = (y2 - y1) / y1 if rel_norm else y2 - y1
             if np.linalg.norm(diff, ord=2) < tolerance:
                 return Result(
